@@ -70,7 +70,24 @@ fn main() {
 		"onbusy" => {
 			std::fs::create_dir_all(&args[3]).unwrap();
 			let base = std::fs::canonicalize(&args[3]).unwrap().to_string_lossy().into_owned();
-			for case in read_cases(&args[2]) {
+			// watchdog: an instance whose job task spins can stall the runtime's timers; such a case is reported as hung and the process ends
+			// (the caller resumes with the next case)
+			let skip: usize = args.get(4).and_then(|s| s.parse().ok()).unwrap_or(0);
+			let current: std::sync::Arc<std::sync::Mutex<Option<(Value, std::time::Instant, u64)>>> = Default::default();
+			let cur2 = current.clone();
+			std::thread::spawn(move || loop {
+				std::thread::sleep(std::time::Duration::from_millis(500));
+				let hung = cur2.lock().unwrap().as_ref().filter(|(_, t, lim)| t.elapsed() > std::time::Duration::from_millis(*lim)).map(|(id, _, _)| id.clone());
+				if let Some(id) = hung {
+					emit(&json!({"id": id, "hung": true, "sent": [], "child_log": [], "main": "hung", "t0": 0, "t_end": 0, "alive_after": []}));
+					use std::io::Write;
+					let _ = std::io::stdout().flush();
+					std::process::exit(0);
+				}
+			});
+			for case in read_cases(&args[2]).into_iter().skip(skip) {
+				let lim = case["wait_ms"].as_u64().unwrap_or(3000) + case["events"].as_array().and_then(|a| a.last()).and_then(|e| e["at_ms"].as_u64()).unwrap_or(0) + 10_000;
+				*current.lock().unwrap() = Some((case["id"].clone(), std::time::Instant::now(), lim));
 				let rt = tokio::runtime::Builder::new_multi_thread().worker_threads(3).enable_all().build().unwrap();
 				let v = rt.block_on(onbusy(case, &base));
 				emit(&v);
@@ -225,7 +242,9 @@ async fn onbusy(case: Value, base: &str) -> Value {
 	let main = wx.main();
 	let mut sent = Vec::new();
 	if !args.events.postpone {
-		wx.send_event(Event::default(), Priority::Urgent).await.unwrap();
+		// the start-up event of cli/src/lib.rs run_watchexec, with the priority it is translated to use there
+		let sp = match case["startup_prio"].as_str().unwrap_or("Urgent") { "Urgent" => Priority::Urgent, "High" => Priority::High, "Low" => Priority::Low, _ => Priority::Normal };
+		wx.send_event(Event::default(), sp).await.unwrap();
 		sent.push(json!({"k": "startup", "t": mono_ms()}));
 	}
 	for ev in case["events"].as_array().unwrap() {
@@ -247,11 +266,15 @@ async fn onbusy(case: Value, base: &str) -> Value {
 			"eof" => Event { tags: vec![Tag::Keyboard(watchexec_events::Keyboard::Eof)], metadata: Default::default() },
 			o => panic!("event {o}"),
 		};
+		if std::env::var("WXH_DBG").is_ok() { eprintln!("DBG sending event"); }
 		let ok = wx.send_event(e, Priority::Normal).await.is_ok();
+		if std::env::var("WXH_DBG").is_ok() { eprintln!("DBG sent"); }
 		sent.push(json!({"k": ev["k"], "t": mono_ms(), "ok": ok, "sig": ev["sig"]}));
 	}
 	let wait = case["wait_ms"].as_u64().unwrap_or(3000);
+	if std::env::var("WXH_DBG").is_ok() { eprintln!("DBG events sent, waiting"); }
 	let res = tokio::time::timeout(Duration::from_millis(wait), main).await;
+	if std::env::var("WXH_DBG").is_ok() { eprintln!("DBG wait over"); }
 	let t_end = mono_ms();
 	let main_res = match res {
 		Ok(r) => format!("{:?}", r.map(|x| x.map_err(|e| e.to_string()))),
